@@ -35,6 +35,11 @@ def run_demo(demo, include_dir, chai_bin, workdir, tag, tsan):
     return rc, out[-600:]
 
 
+def _sha(path):
+    import hashlib
+    return hashlib.sha1(open(path, "rb").read()).hexdigest()[:12]
+
+
 def main():
     pids = sys.argv[1:] or sorted(os.listdir(INC))
     results = json.load(open(OUT)) if os.path.exists(OUT) else {}
@@ -43,9 +48,9 @@ def main():
         for patch in sorted(glob.glob(os.path.join(INC, pid, "m*.diff"))):
             m = os.path.basename(patch)[:-5]
             key = "%s/%s" % (pid, m)
-            if key in results and results[key].get("head") == head and results[key].get("tests"):
-                continue
-            res = {"head": head}
+            if key in results and results[key].get("tests") and results[key].get("patch_sha") in (None, _sha(patch)):
+                continue        # confirmed before (against an earlier /repo HEAD is fine as long as the patch file is the same)
+            res = {"head": head, "patch_sha": _sha(patch)}
             S = "/tmp/vconf_%s_%s" % (pid, m)
             sh("git -C /repo worktree remove --force %s; rm -rf %s" % (S, S))
             rc, out = sh("git -C /repo worktree add --detach %s HEAD" % S)
